@@ -237,7 +237,9 @@ CLAIMED = {
         "if the used source entries are orthonormal T s_j = t_j; any exact solution X of from.X = to (the least-squares "
         "solver's post-condition for independent sources) satisfies X^T s_j = t_j; only requested keys held by both "
         "vocabularies are used; a warning is issued iff populate is unspecified and keys are missing; the target is unchanged "
-        "unless populate is True, in which case exactly the missing requested keys are appended. The source is never "
+        "unless populate is True, in which case exactly the missing requested keys are appended; a key requested more than once "
+        "counts once, requesting every source key is requesting none, requested keys the source does not hold are ignored "
+        "(Theory/TranslateKeys.v). The source is never "
         "changed, reinterpret keeps vector / follows or keeps the algebra, translated pointers belong to the target and "
         "create_subset is an independent copy: checked by the tie on every configuration (3 algebras x source kinds x key "
         "overlaps x strict x populate x solver x requested). Two defects found and repaired.",
